@@ -179,7 +179,7 @@ Lemma inv_hs b g : Inv g -> Inv (exec (StepHs b) g).
 Proof.
   intros [H1 H2 H3 H4 H5 H6 H7 H8 H9 H10 H11 H12].
   destruct g as [c h r l]. destruct c. cbn in *.
-  destruct h; cbn.
+  destruct h as [| | | |x|x]; cbn.
   - constructor; cbn; auto.
   - (* HBegun *)
     assert (installed = false) by auto. subst installed.
@@ -193,7 +193,7 @@ Proof.
     + destruct hctx; constructor; cbn in *; auto.
     + destruct est; constructor; cbn in *; auto; congruence.
   - (* HWait *)
-    destruct r0; cbn; constructor; cbn in *; auto; congruence.
+    destruct r; cbn; constructor; cbn in *; auto; try congruence.
   - constructor; cbn; auto.
 Qed.
 
@@ -218,8 +218,6 @@ Proof.
       destruct closed eqn:Ecl.
       * assert (Hw : negb (by_user || true) = false) by (destruct by_user; reflexivity).
         rewrite Hw. constructor; unfold winners, sockers; cbn in *; auto; try congruence; try lia.
-        -- intros _. rewrite orb_false_r. auto.
-        -- intros _. specialize (H3 eq_refl). lia.
       * destruct (H2 eq_refl) as (A & B & C & D).
         assert (by_user = false) by (destruct by_user; auto; specialize (H1 eq_refl); congruence).
         subst. cbn.
@@ -264,7 +262,6 @@ Proof.
       * assert (Hw : negb (by_user || true) = false) by (destruct by_user; reflexivity).
         rewrite Hw in *. cbn in *.
         constructor; unfold winners, sockers; cbn in *; auto; try congruence; try lia.
-        intros _. specialize (H3 eq_refl). lia.
       * destruct (H2 eq_refl) as (A & B & C & D).
         assert (by_user = false) by (destruct by_user; auto; specialize (H1 eq_refl); congruence).
         subst. cbn in *.
@@ -296,14 +293,14 @@ Proof.
       constructor; unfold winners, sockers; cbn in *; auto; try congruence; try lia.
     + assert (closed = true) by (destruct closed; auto; specialize (Hopen eq_refl); discriminate).
       subst. specialize (H3 eq_refl).
-      destruct hs_open.
+      destruct (h_mid h) eqn:Eh.
       * specialize (SW UWait En). specialize (SS UWait En).
         constructor; unfold winners, sockers; cbn in *; auto; try congruence; try lia.
       * specialize (SW UDone En). specialize (SS UDone En).
         constructor; unfold winners, sockers; cbn in *; auto; try congruence; try lia.
   - assert (closed = true) by (destruct closed; auto; specialize (Hopen eq_refl); discriminate).
     subst. specialize (H3 eq_refl).
-    destruct hs_open.
+    destruct (h_mid h) eqn:Eh.
     + specialize (SW UWait En). specialize (SS UWait En).
       constructor; unfold winners, sockers; cbn in *; auto; try congruence; try lia.
     + specialize (SW UDone En). specialize (SS UDone En).
@@ -324,3 +321,548 @@ Proof. revert g; induction ops as [|o ops IH]; intros g H; cbn; auto using inv_e
 
 Theorem inv_reachable d v ops : Inv (run ops (cfg0 d v)).
 Proof. apply inv_run, inv0. Qed.
+
+(* ================================================================== safety theorems *)
+
+(* close() writes close_notify at most once, over every interleaving, any number of callers *)
+Theorem cn_close_le1 d v ops : cn_close (cn (run ops (cfg0 d v))) <= 1.
+Proof. pose proof (i_cn _ (inv_reachable d v ops)). lia. Qed.
+
+Theorem cn_reply_le1 d v ops : cn_reply (cn (run ops (cfg0 d v))) <= 1.
+Proof. pose proof (i_reply _ (inv_reachable d v ops)). lia. Qed.
+
+(* nextConn.Close() is called at most once, and exactly once as soon as no close() activation
+   that passed the early return is still under way *)
+Theorem sock_closes_le1 d v ops : sock_closes (cn (run ops (cfg0 d v))) <= 1.
+Proof.
+  pose proof (inv_reachable d v ops) as I.
+  destruct (closed (cn (run ops (cfg0 d v)))) eqn:E.
+  - pose proof (i_sock _ I E). lia.
+  - destruct (i_open _ I E) as (_ & _ & _ & H). lia.
+Qed.
+
+Theorem sock_closed_once_when_settled d v ops :
+  let g := run ops (cfg0 d v) in
+  closed (cn g) = true -> sockers g = 0 -> sock_closes (cn g) = 1 /\ sock_closed (cn g) = true.
+Proof.
+  intros g E S. pose proof (inv_reachable d v ops) as I. fold g in I.
+  pose proof (i_sock _ I E). pose proof (i_sc _ I) as Hs. rewrite Hs.
+  split; [lia|]. apply Nat.ltb_lt. lia.
+Qed.
+
+(* the witness of the two-record schedule: established connection, the peer's close_notify is
+   read, the reply is written, the application's Close() runs its closeLock region before the
+   read loop's close(false) does, and goes on to write its own close_notify. *)
+Definition ops_established : list op :=
+  [Env ECallHandshake; StepHs BEst; Env EEstablish; StepHs BEst].
+Definition ops_two_close_notify : list op :=
+  ops_established ++
+  [Env ERecvCN; StepReader;                       (* reply written *)
+   SpawnClose; StepUser 0;                        (* application Close(): closeLock region *)
+   StepReader; StepReader;                        (* read loop: classify, close(false) loses *)
+   StepUser 0; StepUser 0; StepUser 0; StepUser 0 (* cancels, established?, close_notify *)].
+
+Theorem close_notify_total_at_most_once_refuted :
+  exists ops, let c := cn (run ops (cfg0 false false)) in
+    cn_close c = 1 /\ cn_reply c = 1 /\ cn_close c + cn_reply c = 2.
+Proof. exists ops_two_close_notify. vm_compute. auto. Qed.
+
+Theorem close_notify_total_le2 d v ops :
+  let c := cn (run ops (cfg0 d v)) in cn_close c + cn_reply c <= 2.
+Proof. cbn. pose proof (cn_close_le1 d v ops). pose proof (cn_reply_le1 d v ops). lia. Qed.
+
+(* ---------- monotonicity facts used below ---------- *)
+
+Ltac mono :=
+  cbn;
+  repeat match goal with
+         | |- context [if ?b then _ else _] => destruct b eqn:?
+         | |- context [match ?x with Some _ => _ | None => _ end] => destruct x eqn:?
+         end;
+  cbn; repeat split; auto; try congruence; try lia.
+
+Lemma user_step_mono u c :
+  let c' := snd (user_step u c) in
+  est c' = est c /\ cn_close c <= cn_close c' /\ (closed c = true -> closed c' = true).
+Proof.
+  destruct u as [p| |]; [destruct p as [|w i|w i| |e| |]| |]; mono.
+Qed.
+
+Lemma reader_step_mono r c :
+  let c' := snd (reader_step r c) in
+  est c' = est c /\ cn_close c <= cn_close c' /\ (closed c = true -> closed c' = true).
+Proof.
+  destruct r as [| | |k|p| |]; [| | |destruct k|destruct p as [|w i|w i| |e| |]| |]; mono.
+Qed.
+
+Lemma hs_step_mono b h r c :
+  let c' := snd (hs_step b h r c) in
+  est c' = est c /\ cn_close c' = cn_close c /\ closed c' = closed c.
+Proof.
+  destruct h as [| | | |x|x]; [| | |destruct b|destruct r|]; mono.
+Qed.
+
+Lemma env_step_mono e g :
+  let g' := env_step e g in
+  (est (cn g) = true -> est (cn g') = true) /\ cn_close (cn g') = cn_close (cn g) /\
+  closed (cn g') = closed (cn g) /\ us g' = us g.
+Proof.
+  destruct g as [c h r l]; destruct e; cbn;
+    try (destruct h; cbn); try (destruct r; cbn); mono.
+Qed.
+
+(* ---------- exactly one close_notify when the application closes an established open
+   connection ---------- *)
+
+Definition won (i : nat) (g : cfg) : Prop :=
+  est (cn g) = true /\
+  match nth_error (us g) i with
+  | Some (UC (CCan1 true _)) | Some (UC (CCan2 true _)) | Some (UC CEst)
+  | Some (UC (CNotify true)) => True
+  | Some (UC CSock) | Some (UC CRet) | Some UWait | Some UDone => 1 <= cn_close (cn g)
+  | _ => False
+  end.
+
+Lemma won_exec i o g : won i g -> won i (exec o g).
+Proof.
+  intros [E W]. destruct g as [c h r l]. cbn in *.
+  destruct o as [|j| |b|e]; cbn.
+  - split; auto. cbn.
+    destruct (nth_error l i) eqn:En; [|contradiction].
+    rewrite nth_error_app1; [rewrite En; auto|]. apply nth_error_Some. congruence.
+  - destruct (nth_error l j) as [u|] eqn:Ej; [|split; auto].
+    destruct (user_step u c) as [u' c'] eqn:Es.
+    pose proof (user_step_mono u c) as M. rewrite Es in M. cbn in M. destruct M as (M1 & M2 & _).
+    unfold won; cbn. split; [congruence|].
+    destruct (Nat.eq_dec j i) as [->|Hne].
+    + rewrite (upd_nth_same _ _ _ _ Ej). rewrite Ej in W.
+      destruct u as [p| |]; cbn in Es.
+      * destruct p as [|w k|w k| |e| |]; try contradiction.
+        -- destruct w; try contradiction. inversion Es; subst. exact I.
+        -- destruct w; try contradiction. inversion Es; subst. exact I.
+        -- inversion Es; subst. rewrite E. exact I.
+        -- destruct e; try contradiction. inversion Es; subst. cbn. lia.
+        -- inversion Es; subst. cbn. lia.
+        -- destruct (hs_open c); inversion Es; subst; lia.
+      * destruct (hs_open c); inversion Es; subst; lia.
+      * inversion Es; subst. lia.
+    + rewrite (upd_nth_other _ _ _ _ Hne).
+      destruct (nth_error l i) as [[[|[] ?|[] ?| |[]| |]| |]|]; auto; lia.
+  - destruct (reader_step r c) as [r' c'] eqn:Es.
+    pose proof (reader_step_mono r c) as M. rewrite Es in M. cbn in M. destruct M as (M1 & M2 & _).
+    unfold won; cbn. split; [congruence|].
+    destruct (nth_error l i) as [[[|[] ?|[] ?| |[]| |]| |]|]; auto; lia.
+  - destruct (hs_step b h r c) as [[h' r'] c'] eqn:Es.
+    pose proof (hs_step_mono b h r c) as M. rewrite Es in M. cbn in M. destruct M as (M1 & M2 & _).
+    unfold won; cbn. split; [congruence|]. rewrite M2. auto.
+  - pose proof (env_step_mono e (mkCfg c h r l)) as M. cbn in M. destruct M as (M1 & M2 & _ & M4).
+    split; [auto|]. rewrite M4, M2. cbn. auto.
+Qed.
+
+Lemma won_run i ops g : won i g -> won i (run ops g).
+Proof. revert g; induction ops as [|o ops IH]; intros g H; cbn; auto using won_exec. Qed.
+
+Theorem sent_when_user_closes_established_open d v ops1 ops2 i :
+  let g1 := run ops1 (cfg0 d v) in
+  est (cn g1) = true -> closed (cn g1) = false -> nth_error (us g1) i = Some (UC CLock) ->
+  let g2 := run (StepUser i :: ops2) g1 in
+  nth_error (us g2) i = Some UDone -> cn_close (cn g2) = 1.
+Proof.
+  intros g1 E C N g2 D.
+  pose proof (inv_reachable d v ops1) as I1. fold g1 in I1.
+  assert (B : by_user (cn g1) = false).
+  { destruct (by_user (cn g1)) eqn:B; auto. pose proof (i_user _ I1 B). congruence. }
+  assert (W : won i (exec (StepUser i) g1)).
+  { clear D g2. destruct g1 as [c h r l]. cbn in *. rewrite N. cbn. rewrite B, C. cbn.
+    unfold won; cbn. split; [exact E|]. rewrite (upd_nth_same _ _ _ _ N). exact I. }
+  pose proof (won_run i ops2 _ W) as [_ W2].
+  unfold g2 in D. cbn [run] in D. rewrite D in W2.
+  assert (I2 : Inv (run ops2 (exec (StepUser i) g1))) by (apply inv_run, inv_exec, I1).
+  pose proof (i_cn _ I2). unfold g2. cbn [run]. lia.
+Qed.
+
+
+(* ---------- close_notify from close() only for an application Close() on an established
+   connection ---------- *)
+
+Definition u_est_ok (e : bool) (u : upc) : bool :=
+  match u with UC (CNotify true) => e | _ => true end.
+
+Record Inv2 (g : cfg) : Prop := mkInv2 {
+  j_notify : forallb (u_est_ok (est (cn g))) (us g) = true;
+  j_cn : 1 <= cn_close (cn g) -> by_user (cn g) = true /\ est (cn g) = true;
+  j_past : forallb (fun u => implb (negb (u_pre u)) (by_user (cn g))) (us g) = true
+}.
+
+Lemma forallb_impl {A} (p q : A -> bool) l :
+  (forall x, p x = true -> q x = true) -> forallb p l = true -> forallb q l = true.
+Proof.
+  intros H; induction l as [|a l IH]; cbn; auto. intro E.
+  apply andb_true_iff in E as [E1 E2]. rewrite (H _ E1), IH; auto.
+Qed.
+
+Lemma inv2_exec o g : Inv2 g -> Inv2 (exec o g).
+Proof.
+  intros [J1 J2 J3]. destruct g as [c h r l]. cbn in *.
+  destruct o as [|i| |b|e]; cbn.
+  - constructor; cbn; auto; rewrite forallb_app; cbn.
+    + rewrite J1. destruct (est c); reflexivity.
+    + rewrite J3. reflexivity.
+  - destruct (nth_error l i) as [u|] eqn:En; [|constructor; auto].
+    pose proof (forallb_nth _ _ _ _ J1 En) as P1. pose proof (forallb_nth _ _ _ _ J3 En) as P3.
+    destruct u as [p| |]; [destruct p as [|w k|w k| |e| |]| |]; cbn in *.
+    1: { constructor; cbn; auto.
+      * apply forallb_upd; auto.
+      * intro H. destruct (J2 H) as [-> ->]. auto.
+      * apply forallb_upd; cbn; [|rewrite orb_true_r; reflexivity].
+        eapply forallb_impl; [|exact J3]. intros x. destruct (u_pre x); cbn; auto.
+        intros _. apply orb_true_r. }
+    all: rewrite ?andb_true_r;
+      repeat match goal with |- context [if ?b then _ else _] => destruct b eqn:? end;
+      constructor; cbn in *; auto; try (apply forallb_upd; auto);
+      try exact J2; try (intros _; split; [exact P3|exact P1]);
+      try (cbn; destruct (est c); reflexivity).
+  - destruct r as [| | |k|p| |]; [| | |destruct k|destruct p as [|w i|w i| |e| |]| |]; cbn;
+      rewrite ?andb_false_r;
+      repeat match goal with
+             | |- context [if ?b then _ else _] => destruct b eqn:?
+             end; constructor; cbn in *; auto; try congruence.
+    all: try (eapply forallb_impl; [|exact J3]; intros x; destruct (u_pre x); cbn; auto;
+              intros ->; apply orb_true_l).
+    all: try (rewrite orb_false_r; auto).
+    all: try (intro H'; destruct (J2 H'); split; auto; congruence).
+  - destruct h as [| | | |x|x]; [| | |destruct b|destruct r|]; cbn;
+      repeat match goal with
+             | |- context [if ?b then _ else _] => destruct b eqn:?
+             | |- context [match ?x with Some _ => _ | None => _ end] => destruct x eqn:?
+             end; constructor; cbn in *; auto.
+    all: try (rewrite Heqb; exact J1).
+    all: try (intro H'; destruct (J2 H'); split; auto; congruence).
+  - destruct e; cbn; try (destruct h; cbn); try (destruct r; cbn);
+      repeat match goal with
+             | |- context [if ?b then _ else _] => destruct b eqn:?
+             end; constructor; cbn in *; auto.
+    all: try (eapply forallb_impl; [|exact J1]; intros [[| | | |[]| |]| |]; cbn; auto; congruence).
+    all: intros H; destruct (J2 H); split; auto; congruence.
+Qed.
+
+Lemma inv2_run ops g : Inv2 g -> Inv2 (run ops g).
+Proof. revert g; induction ops as [|o ops IH]; intros g H; cbn; auto using inv2_exec. Qed.
+
+Theorem cn_close_only_user_established d v ops :
+  let c := cn (run ops (cfg0 d v)) in
+  1 <= cn_close c -> by_user c = true /\ est c = true /\ closed c = true.
+Proof.
+  cbn. intro H.
+  assert (J : Inv2 (run ops (cfg0 d v))).
+  { apply inv2_run. constructor; cbn; auto. lia. }
+  destruct (j_cn _ J H) as [A B]. repeat split; auto.
+  apply (i_user _ (inv_reachable d v ops) A).
+Qed.
+
+(* ================================================================== idempotence *)
+
+(* what the API, the wire and the peer can observe of a connection *)
+Definition obs (c : conn) :=
+  (closed c, est c, sock_closed c, sock_closes c, cn_close c, cn_reply c, first_err c,
+   dec_closed c, hs_open c).
+
+(* A Close() that starts on a closed connection (any reachable configuration, other threads at
+   any program point) performs four atomic steps - closeLock region, the two cancel calls,
+   read of handshakeDone - returns nil (or waits for the running HandshakeContext, then
+   returns nil) and changes nothing observable: no record, no second nextConn.Close(). *)
+Theorem close_idempotent g i :
+  closed (cn g) = true -> nth_error (us g) i = Some (UC CLock) ->
+  let g' := run [StepUser i; StepUser i; StepUser i; StepUser i] g in
+  obs (cn g') = obs (cn g) /\ hs g' = hs g /\ rd g' = rd g /\
+  nth_error (us g') i = Some (if hs_open (cn g) then UWait else UDone) /\
+  (forall j, j <> i -> nth_error (us g') j = nth_error (us g) j).
+Proof.
+  intros C N. destruct g as [c h r l]. cbn in C, N.
+  cbn [run exec us cn hs rd]. rewrite N. cbn [user_step close_step].
+  rewrite C, orb_true_r. cbn [negb].
+  cbn [us cn hs rd]. rewrite (upd_nth_same _ _ _ _ N). cbn [user_step close_step].
+  cbn [us cn hs rd].
+  rewrite (upd_nth_same _ _ (UC (CCan1 false (installed c))) (UC (CCan2 false (installed c))))
+    by (eapply upd_nth_same; eauto).
+  cbn [user_step close_step us cn hs rd].
+  match goal with |- context [nth_error ?L i] =>
+    assert (E3 : nth_error L i = Some (UC CRet))
+  end.
+  { eapply upd_nth_same. eapply upd_nth_same. eapply upd_nth_same. eauto. }
+  rewrite E3. cbn [user_step].
+  destruct c; cbn in *. subst.
+  destruct installed, hs_open; cbn; repeat split; auto;
+    try (erewrite upd_nth_same; [reflexivity|];
+         eapply upd_nth_same; eapply upd_nth_same; eapply upd_nth_same; eauto);
+    intros j Hj; rewrite !upd_nth_other by auto; reflexivity.
+Qed.
+
+(* on a settled closed connection (cancel functions already called, closed by the application)
+   a further Close() leaves the whole connection state as it is *)
+Theorem close_idempotent_settled g i :
+  closed (cn g) = true -> by_user (cn g) = true -> can_hs (cn g) = true -> can_rd (cn g) = true ->
+  nth_error (us g) i = Some (UC CLock) ->
+  cn (run [StepUser i; StepUser i; StepUser i; StepUser i] g) = cn g.
+Proof.
+  intros C B H1 H2 N. destruct g as [c h r l]. cbn in C, B, H1, H2, N.
+  cbn [run exec us cn hs rd]. rewrite N. cbn [user_step close_step].
+  rewrite C, orb_true_r. cbn [negb us cn hs rd].
+  rewrite (upd_nth_same _ _ _ _ N). cbn [user_step close_step us cn hs rd].
+  rewrite (upd_nth_same _ _ (UC (CCan1 false (installed c))) (UC (CCan2 false (installed c))))
+    by (eapply upd_nth_same; eauto).
+  cbn [user_step close_step us cn hs rd].
+  match goal with |- context [nth_error ?L i] =>
+    assert (E3 : nth_error L i = Some (UC CRet))
+  end.
+  { eapply upd_nth_same. eapply upd_nth_same. eapply upd_nth_same. eauto. }
+  rewrite E3. cbn [user_step].
+  destruct c; cbn in *. subst. destruct installed, hs_open; reflexivity.
+Qed.
+
+(* ================================================================== wake conditions *)
+
+(* Read: the select is ready as soon as closed holds, and without an expired read deadline
+   every ready branch yields io.EOF *)
+Theorem read_unblocks c :
+  closed c = true ->
+  In KEof (read_ready c) /\
+  (rd_dl c = false -> forall k, In k (read_ready c) -> k = KEof).
+Proof.
+  intro C. unfold read_ready. rewrite C. split; [left; reflexivity|].
+  intros D k. rewrite D. cbn. destruct (dec_closed c); cbn; intuition.
+Qed.
+
+(* Write (DTLS 1.2): ready as soon as closed holds; without an expired write deadline every
+   ready branch yields a closed-class error (ErrConnClosed / net closed) *)
+Theorem write_unblocks_v12 c :
+  closed c = true -> v13 c = false ->
+  In KClosed (write_ready c) /\
+  (wr_dl c = false -> forall k, In k (write_ready c) -> close_class k = true).
+Proof.
+  intros C V. unfold write_ready. rewrite C, V. cbn. split; [left; reflexivity|].
+  intros D k. rewrite D. cbn. destruct (sock_closed c); cbn; intuition; subst; reflexivity.
+Qed.
+
+(* Write (DTLS 1.3): ready as soon as closed holds, but the branch that is ready first yields
+   context.Canceled, which is not a closed/EOF-class error: the ideal statement fails on the
+   model of the code.  Witness: established connection, application Close() has run its
+   closeLock region. *)
+Theorem write_unblocks_v13_ready c :
+  closed c = true -> v13 c = true -> In KCanceled (write_ready c).
+Proof. intros C V. unfold write_ready. rewrite C, V. left. reflexivity. Qed.
+
+Theorem write_unblocks_closed_class_v13_refuted :
+  exists ops, let c := cn (run ops (cfg0 false true)) in
+    closed c = true /\ wr_dl c = false /\
+    exists k, In k (write_ready c) /\ close_class k = false.
+Proof.
+  exists (ops_established ++ [SpawnClose; StepUser 0]). vm_compute.
+  repeat split; auto. exists KCanceled. split; [left; reflexivity|reflexivity].
+Qed.
+
+(* HandshakeContext: the result classes after close; the select itself is woken by the read
+   loop's firstErr (see no_deadlock / close_returns below) *)
+Theorem handshake_result_after_close_class r :
+  In (hres_class false r) [KOk; KCanceled; KNetClosed; KAlert; KOther].
+Proof. destruct r as [|[]|]; cbn; intuition. Qed.
+
+(* ================================================================== deadlock freedom *)
+
+Definition pending (g : cfg) : bool := closed (cn g) || negb (forallb u_done (us g)).
+
+Lemma exists_not_done l :
+  forallb u_done l = false -> exists i u, nth_error l i = Some u /\ u_done u = false.
+Proof.
+  induction l as [|a l IH]; cbn; [discriminate|].
+  destruct (u_done a) eqn:E; cbn.
+  - intro H. destruct (IH H) as (i & u & A & B). exists (S i), u. auto.
+  - intros _. exists 0, a. auto.
+Qed.
+
+Lemma no_uc_sum_s l :
+  forallb (fun u => match u with UC _ => false | _ => true end) l = true ->
+  list_sum (map u_s l) = 0.
+Proof. apply forallb_sum0. intros [p| |]; cbn; congruence. Qed.
+
+Lemma find_uc l :
+  forallb (fun u => match u with UC _ => false | _ => true end) l = false ->
+  exists i p, nth_error l i = Some (UC p).
+Proof.
+  induction l as [|a l IH]; cbn; [discriminate|].
+  destruct a as [p| |]; cbn.
+  - intros _. exists 0, p. reflexivity.
+  - intro H. destruct (IH H) as (i & p & E). exists (S i), p. exact E.
+  - intro H. destruct (IH H) as (i & p & E). exists (S i), p. exact E.
+Qed.
+
+Lemma find_wait l :
+  forallb (fun u => match u with UC _ => false | _ => true end) l = true ->
+  forallb u_done l = false -> exists i, nth_error l i = Some UWait.
+Proof.
+  induction l as [|a l IH]; cbn; [discriminate|].
+  destruct a as [p| |]; cbn; try discriminate.
+  - intros _ _. exists 0. reflexivity.
+  - intros A B. destruct (IH A B) as (i & E). exists (S i). exact E.
+Qed.
+
+(* Every reachable configuration in which a Close() is under way or the connection is closed,
+   and which is not yet quiet (some Close() has not returned, or the read loop or the
+   HandshakeContext call is still there), has an enabled internal step: no such configuration
+   is a deadlock. *)
+Theorem no_deadlock g :
+  Inv g -> pending g = true -> quiet g = false ->
+  exists o, internal o = true /\ op_enabled o g = true.
+Proof.
+  intros I P Q. destruct g as [c h r l]. unfold pending, quiet in *. cbn in *.
+  destruct (forallb (fun u => match u with UC _ => false | _ => true end) l) eqn:EU.
+  2:{ destruct (find_uc _ EU) as (i & p & E). exists (StepUser i). cbn. rewrite E. auto. }
+  (* no closer inside close(): all are waiting or done *)
+  assert (Cl : closed c = true).
+  { destruct (closed c) eqn:Ec; auto. cbn in P. apply negb_true_iff in P.
+    destruct (find_wait _ EU P) as (i & E).
+    destruct (i_open _ I Ec) as (A & _). cbn in A.
+    pose proof (forallb_nth _ _ _ _ A E) as X. discriminate. }
+  destruct r as [| | |k|p| |] eqn:Er;
+    try (exists StepReader; cbn; auto; fail).
+  - (* RNone *)
+    pose proof (i_rd _ I) as Hrd. cbn in Hrd.
+    destruct h as [| | | |x|x] eqn:Eh.
+    + (* HIdle *) cbn in Q. rewrite !andb_true_r in Q.
+      destruct (find_wait _ EU Q) as (i & E). exists (StepUser i). cbn. rewrite E. cbn.
+      pose proof (i_hsopen _ I) as Ho. cbn in Ho. rewrite Ho. auto.
+    + exists (StepHs BErr). cbn. auto.
+    + (* HNeg *) exists (StepHs BErr). cbn. split; auto.
+      pose proof (i_sock _ I Cl) as S. unfold sockers in S. cbn in S.
+      rewrite (no_uc_sum_s _ EU) in S. pose proof (i_sc _ I) as Sc. cbn in Sc.
+      rewrite Sc. replace (sock_closes c) with 1 by lia. apply orb_true_r.
+    + pose proof (i_run _ I eq_refl) as X. cbn in X. rewrite X in Hrd. discriminate.
+    + pose proof (i_run _ I eq_refl) as X. cbn in X. rewrite X in Hrd. discriminate.
+    + (* HRet *) cbn in Q. rewrite !andb_true_r in Q.
+      destruct (find_wait _ EU Q) as (i & E). exists (StepUser i). cbn. rewrite E. cbn.
+      pose proof (i_hsopen _ I) as Ho. cbn in Ho. rewrite Ho. auto.
+  - (* RRead: the socket has been closed *)
+    exists StepReader. cbn. split; auto.
+    pose proof (i_sock _ I Cl) as S. unfold sockers in S. cbn in S.
+    rewrite (no_uc_sum_s _ EU) in S. pose proof (i_sc _ I) as Sc. cbn in Sc.
+    rewrite Sc. replace (sock_closes c) with 1 by lia. apply orb_true_r.
+  - (* RDone *)
+    pose proof (i_ferr _ I eq_refl) as Fe. cbn in Fe.
+    destruct h as [| | | |x|x] eqn:Eh.
+    + cbn in Q. rewrite !andb_true_r in Q.
+      destruct (find_wait _ EU Q) as (i & E). exists (StepUser i). cbn. rewrite E. cbn.
+      pose proof (i_hsopen _ I) as Ho. cbn in Ho. rewrite Ho. auto.
+    + exists (StepHs BErr). cbn. auto.
+    + pose proof (i_pre _ I eq_refl) as X. pose proof (i_rd _ I) as Y. cbn in X, Y. congruence.
+    + exists (StepHs BErr). cbn. destruct (first_err c); auto. congruence.
+    + exists (StepHs BErr). cbn. auto.
+    + cbn in Q. rewrite !andb_true_r in Q.
+      destruct (find_wait _ EU Q) as (i & E). exists (StepUser i). cbn. rewrite E. cbn.
+      pose proof (i_hsopen _ I) as Ho. cbn in Ho. rewrite Ho. auto.
+Qed.
+
+(* every enabled internal step strictly decreases the measure: internal activity is finite *)
+Theorem enabled_decreases o g :
+  internal o = true -> op_enabled o g = true -> mu (exec o g) < mu g.
+Proof.
+  destruct g as [c h r l]. destruct o as [|i| |b|e]; cbn; try discriminate; intros _.
+  - destruct (nth_error l i) as [u|] eqn:E; [|discriminate].
+    intro En. pose proof (upd_sum rank_u l i u) as S.
+    destruct u as [p| |]; cbn in En.
+    + destruct p as [|w k|w k| |e| |]; cbn.
+      * specialize (S (UC (CCan1 (negb (by_user c || closed c)) (installed c))) E).
+        unfold mu; cbn in *. lia.
+      * specialize (S (UC (CCan2 w k)) E). destruct k; unfold mu; cbn in *; lia.
+      * destruct w.
+        -- specialize (S (UC CEst) E). destruct k; unfold mu; cbn in *; lia.
+        -- specialize (S (UC CRet) E). destruct k; unfold mu; cbn in *; lia.
+      * specialize (S (UC (CNotify (est c))) E). unfold mu; cbn in *; lia.
+      * specialize (S (UC CSock) E). destruct (e && true); unfold mu; cbn in *; lia.
+      * specialize (S (UC CRet) E). unfold mu; cbn in *; lia.
+      * destruct (hs_open c).
+        -- specialize (S UWait E). unfold mu; cbn in *; lia.
+        -- specialize (S UDone E). unfold mu; cbn in *; lia.
+    + apply negb_true_iff in En. rewrite En. specialize (S UDone E). unfold mu; cbn in *; lia.
+    + discriminate.
+  - destruct r as [| | |k|p| |]; cbn; try discriminate.
+    + intro En. destruct (can_rd c); [unfold mu; cbn; lia|].
+      cbn in En. rewrite En. unfold mu; cbn; lia.
+    + intros _. destruct (sock_closed c); unfold mu; cbn; lia.
+    + intros _. destruct k; cbn; try destruct (closed c); try destruct (est c); unfold mu; cbn; lia.
+    + intros _. destruct p as [|w k|w k| |e| |]; cbn; try destruct k; try destruct w;
+        try destruct (e && false); unfold mu; cbn; lia.
+    + intros _. unfold mu; cbn; lia.
+  - destruct h as [| | | |x|x]; cbn; try discriminate.
+    + intros _. destruct (dual c); unfold mu; cbn; [lia|].
+      destruct r as [| | |k|p| |]; cbn; try lia. destruct k; lia.
+      destruct p; cbn; lia.
+    + intro En. destruct (hctx c); [unfold mu; cbn; lia|].
+      cbn in En. rewrite En. unfold mu; cbn; lia.
+    + destruct b.
+      * destruct (first_err c); [intros _; unfold mu; cbn; lia|discriminate].
+      * intro En. rewrite En. unfold mu; cbn; lia.
+      * intro En. rewrite En. unfold mu; cbn; lia.
+    + destruct r; try discriminate. intros _. unfold mu; cbn; lia.
+Qed.
+
+Lemma pending_step o g :
+  Inv g -> internal o = true -> pending g = true -> pending (exec o g) = true.
+Proof.
+  intros I Io P. unfold pending in *.
+  destruct (closed (cn g)) eqn:C.
+  - assert (closed (cn (exec o g)) = true); [|rewrite H; reflexivity].
+    destruct g as [c h r l]. destruct o as [|i| |b|e]; cbn in *; try discriminate.
+    + destruct (nth_error l i) as [u|]; auto.
+      pose proof (user_step_mono u c) as M. destruct (user_step u c). cbn in *. tauto.
+    + pose proof (reader_step_mono r c) as M. destruct (reader_step r c). cbn in *. tauto.
+    + pose proof (hs_step_mono b h r c) as M. destruct (hs_step b h r c) as [[? ?] ?]. cbn in *.
+      destruct M as (_ & _ & M). congruence.
+  - cbn in P. destruct g as [c h r l]. cbn in *.
+    destruct (i_open _ I C) as (A & _). cbn in A.
+    destruct o as [|i| |b|e]; cbn in *; try discriminate.
+    + destruct (nth_error l i) as [u|] eqn:E; [|cbn; rewrite C; auto].
+      pose proof (forallb_nth _ _ _ _ A E) as X. destruct u as [[]| |]; try discriminate. cbn. reflexivity.
+    + destruct (reader_step r c) as [r' c']. cbn. rewrite P. apply orb_true_r.
+    + destruct (hs_step b h r c) as [[h' r'] c']. cbn. rewrite P. apply orb_true_r.
+Qed.
+
+(* Close() returns and no goroutine is left behind: from every reachable configuration in
+   which a Close() is under way (or the connection is closed) the internal steps alone - no
+   help from the peer or the application - lead to a quiet configuration; together with
+   [no_deadlock] and [enabled_decreases] every maximal internal run does. *)
+Theorem close_returns g :
+  Inv g -> pending g = true ->
+  exists ops, Forall (fun o => internal o = true) ops /\ quiet (run ops g) = true /\
+              length ops <= mu g.
+Proof.
+  remember (mu g) as n eqn:En. revert g En.
+  induction n as [n IH] using lt_wf_ind. intros g En I P.
+  destruct (quiet g) eqn:Q.
+  - exists []. cbn. repeat split; auto. lia.
+  - destruct (no_deadlock g I P Q) as (o & Io & Eo).
+    pose proof (enabled_decreases o g Io Eo) as D.
+    destruct (IH (mu (exec o g)) ltac:(lia) (exec o g) eq_refl (inv_exec o g I)
+                 (pending_step o g I Io P)) as (ops & F & Qf & L).
+    exists (o :: ops). cbn. repeat split; auto. lia.
+Qed.
+
+Corollary close_returns_reachable d v ops :
+  let g := run ops (cfg0 d v) in
+  pending g = true ->
+  exists ops', Forall (fun o => internal o = true) ops' /\ quiet (run ops' g) = true.
+Proof.
+  intros g P. destruct (close_returns g (inv_reachable d v ops) P) as (o & A & B & _). eauto.
+Qed.
+
+(* in a quiet closed configuration the socket is closed exactly once and every Close() got nil *)
+Theorem quiet_closed_settled g :
+  Inv g -> closed (cn g) = true -> quiet g = true ->
+  sock_closes (cn g) = 1 /\ sock_closed (cn g) = true /\ forallb u_done (us g) = true.
+Proof.
+  intros I C Q. unfold quiet in Q. apply andb_true_iff in Q as [Q Q3]. apply andb_true_iff in Q as [Q1 Q2].
+  pose proof (i_sock _ I C) as S. unfold sockers in S.
+  assert (list_sum (map u_s (us g)) = 0).
+  { apply (forallb_sum0 u_done); auto. intros [| |]; cbn; congruence. }
+  assert (r_s (rd g) = 0) by (destruct (rd g); cbn in *; auto; discriminate).
+  pose proof (i_sc _ I) as Sc. rewrite Sc. replace (sock_closes (cn g)) with 1 by lia. auto.
+Qed.
